@@ -26,6 +26,8 @@ def main():
     spec = importlib.import_module(prop)
     t0 = time.time()
     obligations = [o for o in spec.OBLIGATIONS if tier == 'thorough' or o.get('tier', 'quick') == 'quick']
+    if os.environ.get('VERIF_ONLY'):   # development aid: restrict to obligations whose id contains the text
+        obligations = [o for o in obligations if os.environ['VERIF_ONLY'] in o['id']]
     results = {}
     extra = dict(functions=[], dropped=[], not_covered=getattr(spec, 'NOT_COVERED', []), canaries=[], known=[],
                  injection=[], trusted=getattr(spec, 'TRUSTED', []))
@@ -73,7 +75,8 @@ def main():
         else:
             runnable.append(o)
     canaries = [c for c in getattr(spec, 'CANARIES', []) if c.get('engine', 'K') == 'K'
-                and not any(u in lost_units for u in c.get('units', []))]
+                and not any(u in lost_units for u in c.get('units', []))
+                and all(u in needed_units for u in c.get('units', []))]
     if runnable:
         harnesses = [o['harness'] for o in runnable] + [c['harness'] for c in canaries]
         kr = vlib.run_kani(scratch, harnesses, harness_timeout=getattr(spec, 'HARNESS_TIMEOUT', 600))
